@@ -538,7 +538,8 @@ def oracle_c07(case, per, late, fail):
             continue                      # hook failure is outside the statement's quantifier
         if not completed:
             if not M.get("raise_err"):
-                fail("message did not complete processing", sig, evs)
+                cr = [e[1] for e in evs if e[0] == "crash"]
+                fail("message did not complete processing" + (" (callback raised %s)" % cr[0] if cr else ""), sig, evs)
             continue
         # no-result: raised by the function, or substituted by an on_error / post_execute hook
         subst = any(h["act"] == "nores" for _, h in class_hooks(case, "post_execute")) or \
@@ -780,6 +781,7 @@ def gen_mws(r, tbl, side, p_raise=0.05):
 
 
 AW_P = 0.08        # fraction of the hooks / ack callables that return a non-coroutine awaitable
+WALL_P = 0.12      # fraction of the receive cases run under a scripted, possibly non-monotonic wall clock (gen_wall)
 LATE_P = 0.2       # fraction of the receive cases in which the broker gets things after its Receiver was constructed
 CHAIN_P = 0.25     # fraction of the send cases in which sends are consecutive steps on one kicker object
 SHAPE_P = 0.3      # fraction of the middlewares whose hooks are not all defined on a direct subclass of TaskiqMiddleware
@@ -884,6 +886,8 @@ def gen_recv(r, focus="c02", allow_d10=True):
     case["msgs"] = msgs
     if r.random() < LATE_P:
         case["late"] = gen_late(r, case)
+    if r.random() < WALL_P:
+        gen_wall(r, case)
     if not allow_d10:
         for M in msgs:   # finding D10 (sync function raising GeneratorExit) lives in the corpus, not in the random stream
             if M["style"] == "sync" and M["out"] == {"raise": 8}:
@@ -910,6 +914,37 @@ def gen_recv(r, focus="c02", allow_d10=True):
                 break
     del lt_dummy
     return case
+
+
+WALL_BASES = [0.0, 1.0, 1.7e9, 1.7e9, 1.7e9, 1758000000.25, 2147483647.0, 4294967296.0, -86400.0]
+WALL_BASES_HUGE = [1e12, 253402300800.0, float(2 ** 53), 1e18]
+
+
+def gen_wall(r, case):
+    """the host's wall clock during the run (driver: WallClock): what time.time() returns to taskiq.receiver.receiver is
+    NOT the loop's monotonic clock (which goes on driving sleeps and timeouts) but a scripted clock starting at `base`
+    that may be stepped while executions are under way - backwards (NTP step correction, VM resume / migration, an
+    operator's `date -s`) or forwards by milliseconds .. years, set to an absolute value, or standing still (equal
+    readings).  scope = global: the same clock is also what `time.time()` gives every other module during the run."""
+    wall = dict(scope=r.choice(["receiver", "receiver", "global"]))
+    wall["base"] = r.choice(WALL_BASES if wall["scope"] == "global" or r.random() < .75 else WALL_BASES_HUGE)
+    if r.random() < .4:
+        wall["mono0"] = r.choice([0.5, 12.25, 3600.0, 86400.0, 1e6])     # the loop's monotonic clock does not start at 0
+    case["wall"] = wall
+    for M in case["msgs"]:
+        if r.random() >= .7:
+            continue
+        k = r.random()
+        if k < .5:
+            M["wall"] = {"step": -r.choice([0.004, 0.006, 0.02, 0.5, 1.0, 30.0, 30.0, 3600.0, 86400.0, 3.2e7, 1.5e9])}
+        elif k < .65:
+            M["wall"] = {"step": r.choice([0.006, 1.0, 30.0, 3600.0, 86400.0, 3.2e7, 1e12])}
+        elif k < .8:
+            M["wall"] = {"set": r.choice([0.0, 1.0, wall["base"], wall["base"] - 0.01, 946684800.0, -1.0, 1e15])}
+        else:
+            M["wall"] = {"freeze": 1}
+    if not any(M.get("wall") for M in case["msgs"]):
+        r.choice(case["msgs"])["wall"] = {"step": -r.choice([1.0, 30.0, 3600.0])}
 
 
 def gen_late(r, case):
@@ -1055,6 +1090,37 @@ def count_chains(rep, case):
         rep.count("send-chain-length:%d" % k)
 
 
+def wall_magnitude(s):
+    s = abs(s)
+    return "<5ms" if s < 0.005 else "ms" if s < 1 else "seconds" if s < 3600 else "hours-days" if s < 3e6 else "years+"
+
+
+def count_wall(rep, M, evs):
+    """what the scripted wall clock did during this message's execution, and what the receiver measured (the readings are
+    in the exec.begin / exec.end log entries, the stored execution_time in save.enter)"""
+    op = M.get("wall")
+    if not op:
+        rep.count("wall-clock:during-execution:runs-on(other executions may step it)")
+    elif "step" in op:
+        rep.count("wall-clock:during-execution:steps-%s:%s" % ("backwards" if op["step"] < 0 else "forwards",
+                                                                 wall_magnitude(op["step"])))
+    elif "set" in op:
+        rep.count("wall-clock:during-execution:set-to-absolute-value")
+    else:
+        rep.count("wall-clock:during-execution:stands-still")
+    b = [float.fromhex(e[1]) for e in evs if e[0] == "exec.begin" and len(e) > 1]
+    x = [float.fromhex(e[1]) for e in evs if e[0] == "exec.end" and len(e) > 1]
+    if b and x:
+        d = x[0] - b[0]
+        rep.count("wall-clock:measured-duration:" + ("negative(>5ms)" if d < -0.005 else "negative(<=5ms)" if d < 0 else
+                                                     "zero(equal readings)" if d == 0 else "positive" if d < 3600 else
+                                                     "positive(hours+)"))
+        for e in evs:
+            if e[0] == "save.enter" and len(e) > 6:
+                rep.count("wall-clock:result-stored-with-%s-execution_time" %
+                          ("negative" if float.fromhex(e[6]) < 0 else "non-negative"))
+
+
 def count_recv(rep, case, per, late):
     at = case.get("ack_type") or "default(when_saved)"
     rep.count("messages:%d" % len(case["msgs"]))
@@ -1073,9 +1139,18 @@ def count_recv(rep, case, per, late):
                                              "formatter": "formatter", "tasks": "tasks-registered",
                                              "swap_at": "result-backend-swapped-mid-run",
                                              "mws_before": "middlewares-added"}[k])
+    wall = case.get("wall")
+    if wall:
+        rep.count("wall-clock(scripted, not the loop clock):case")
+        rep.count("wall-clock:scope:" + wall.get("scope", "receiver"))
+        rep.count("wall-clock:loop-clock-origin:" + ("0" if not wall.get("mono0") else "nonzero"))
+        rep.count("wall-clock:base:" + ("epoch-2020s" if 1e9 <= wall["base"] < 2e9 else "before-1970" if wall["base"] < 0 else
+                                        "near-0" if wall["base"] < 1e9 else "2038+" if wall["base"] < 1e10 else "huge"))
     for i, M in enumerate(case["msgs"]):
         evs = per[i]
         rep.count("kind:" + M["kind"])
+        if wall:
+            count_wall(rep, M, evs)
         if late_b and late_b.get("backend") and any(e[0] == "save.enter" for e in evs):
             rep.count("late-binding:result-stored-in-late-bound-backend")
         if M["kind"] != "ok":
